@@ -1,0 +1,31 @@
+//go:build verif
+
+// Contracts for the file interface as a ghost file system (read as text by /verif's govc;
+// comment-only). Crash model of the obligations built on it: a completed call has exactly the
+// effect stated here and survives a process crash; a failed call has no effect; nothing is torn.
+
+package fs
+
+//@ # ghost: the bytes of the file behind a File handle
+//@ ghost SpecFile map[File][]byte
+
+//@ # Truncate sets the length; a grown file is zero-filled beyond its old length
+//@ trusted func (f File) Truncate(size int64) (err error)
+//@   requires size >= 0
+//@   ensures err != nil ==> __eq(SpecFile[f], old(SpecFile[f]))
+//@   ensures err == nil ==> len(SpecFile[f]) == int(size)
+//@   ensures err == nil ==> (forall i int :: 0 <= i && i < int(size) && i < old(len(SpecFile[f])) ==> SpecFile[f][i] == old(SpecFile[f][i]))
+//@   ensures err == nil ==> (forall i int :: old(len(SpecFile[f])) <= i && i < int(size) ==> SpecFile[f][i] == 0)
+//@   ensures forall g File :: g != f ==> __eq(SpecFile[g], old(SpecFile[g]))
+//@   modifies SpecFile
+
+//@ # WriteAt overwrites / extends; a gap between the old end and off is zero-filled
+//@ trusted func (f File) WriteAt(p []byte, off int64) (n int, err error)
+//@   requires off >= 0
+//@   ensures err != nil ==> __eq(SpecFile[f], old(SpecFile[f]))
+//@   ensures err == nil ==> n == len(p) && len(SpecFile[f]) == __ite(old(len(SpecFile[f])) >= int(off) + len(p), old(len(SpecFile[f])), int(off) + len(p))
+//@   ensures err == nil ==> (forall i int :: 0 <= i && i < len(p) ==> SpecFile[f][int(off)+i] == p[i])
+//@   ensures err == nil ==> (forall i int :: 0 <= i && i < old(len(SpecFile[f])) && (i < int(off) || i >= int(off) + len(p)) ==> SpecFile[f][i] == old(SpecFile[f][i]))
+//@   ensures err == nil ==> (forall i int :: old(len(SpecFile[f])) <= i && i < int(off) ==> SpecFile[f][i] == 0)
+//@   ensures forall g File :: g != f ==> __eq(SpecFile[g], old(SpecFile[g]))
+//@   modifies SpecFile
